@@ -128,11 +128,18 @@ def opFsReq (args : List SExp) : Option OpResult := do
         let c02 := if resp.status ≥ 400 && !sameTree t' t then
           [("C02", if faultRegion then "put-body-fault-existing-file" else s!"{r.method}-{resp.status}-changed-the-tree")] else []
         let c17 := if leak then [("C17", s!"host-path-in-{r.method}-{resp.status}-response")] else []
-        let c03 := if canary then [("C03", "outside-root-touched")] else []
+        -- C03, last clause: a request path or Destination that cannot be mapped below the root is refused with 4xx
+        let unmappable := (target r.path).isNone ||
+          ((r.method = "COPY" || r.method = "MOVE") && (match r.dest with | .path d => (target d).isNone | _ => false))
+        let c03 := (if canary then [("C03", "outside-root-touched")] else []) ++
+          (if unmappable && !(400 ≤ resp.status && resp.status < 500) then [("C03", s!"unmappable-path-answered-{resp.status}")] else [])
         let c13 := if resp.status ≥ 500 && !faulted r then [("C13", s!"{r.method}-answered-{resp.status}")] else []
         let conditional := (r.method = "PUT" || r.method = "DELETE") && (r.ifMatch != .unset || r.ifNoneMatch != .unset)
         let c04 := if conditional && (!c01.isEmpty || !c02.isEmpty) then [("C04", s!"{r.method}-precondition-answered-{resp.status}")] else []
-        c01 ++ c02 ++ c17 ++ c03 ++ c13 ++ c04
+        -- C11: the WebDAV server's PROPFIND answers (status, one response per resource in scope, refusal of a body
+        -- naming none of the three forms) are part of the same relation
+        let c11 := if r.method = "PROPFIND" && !c01.isEmpty then [("C11", s!"webdav-PROPFIND-answered-{resp.status}")] else []
+        c01 ++ c02 ++ c17 ++ c03 ++ c13 ++ c04 ++ c11
     pure ⟨impl, judge⟩
   | _ => none
 
